@@ -556,10 +556,13 @@ def rfc_verdict(shape, a, doc):
                     return 'bad:bbox-order'
             else:
                 # curved shapes: the analytic bounds (C09) — only the member order is judged here
-                if not (bb[0] <= bb[2] and bb[1] <= bb[3]):
+                # (west > east is the RFC's way of writing a box across the antimeridian: the analytic bounds of a
+                # curved shape next to +-180 may cross it although none of the drawn vertices does)
+                if not bb[1] <= bb[3]:
                     return 'bad:bbox-order'
                 cx, cy = (lo[0] + lo[2]) / 2, (lo[1] + lo[3]) / 2
-                if not (bb[0] <= cx <= bb[2] and bb[1] <= cy <= bb[3]):
+                lon_in = (bb[0] <= cx <= bb[2]) if bb[0] <= bb[2] else (cx >= bb[0] or cx <= bb[2])
+                if not (lon_in and bb[1] <= cy <= bb[3]):
                     return 'bad:bbox-order'
     elif 'bbox' in geom:
         return 'bad:bbox-unrequested'
@@ -1076,8 +1079,114 @@ def g_z(rng, mode, i=0):
     if mode == 'zero':
         return [0.0]
     if mode == 'vary':
-        return [rng.choice([0.0, 1.0, -3.25, 100.0, 7])]
+        return [rng.choice([0.0, 1.0, -3.25, 100.0, 7] + ZS_AWKWARD)]
     return [] if rng.random() < 0.5 else [rng.choice([0.0, 2.0])]
+
+
+# --- numeric scale of the ordinates ------------------------------------------------------------------------
+# The grid generators above keep every ordinate a small dyadic number.  The functions below re-scale a generated
+# geometry so that the SAME structures are exercised with full-precision doubles (17 significant digits), with
+# vertex spacings of 1e-8 ... 1e-12 degrees, with values that print in exponent notation, and with huge Z.
+
+ZS_AWKWARD = [1 / 3, 0.1 + 0.2, 12345678.123456789, 1e15 + 0.5, 1.7976931348623157e308, -2.2250738585072014e-308,
+              5e-324, 1e-7, -0.0, 123456789012345678, 8848.86]
+AWKWARD = [1 / 3, 2 / 3, 0.1 + 0.2, 0.12345678901234567, 0.7000000000000001, 0.345678901234567, 1e-9, 0.999999999999]
+SPACINGS = [2.0 ** -27, 1e-8, 2.0 ** -30, 1e-9, 2.0 ** -34, 1e-10, 2.0 ** -37, 1e-11, 2.0 ** -40, 1e-12]
+EPS = Fraction(1, 2 ** 52)
+
+
+def awk(rng):
+    """a double in (0, 1) with a full mantissa"""
+    return rng.choice(AWKWARD) if rng.random() < 0.5 else rng.random()
+
+
+def g_num(rng):
+    return rng.choice(['grid'] * 11 + ['full'] * 6 + ['tiny'] * 2 + ['exp'])
+
+
+def cond_ok(raw):
+    """is the orientation of this ring decided far above rounding noise?  |sum| >= 16 eps * sum |terms| of the
+    library's own sum (a rigorous bound on its float evaluation error for rings of up to ~12 vertices), and no
+    product underflows.  Rings that fail are not generated at an awkward scale: their orientation is a coin toss
+    for ANY float implementation, so nothing can be demanded of it."""
+    r = [p[:2] for p in raw]
+    if r[0] != r[-1]:
+        r = r + [r[0]]
+    u = _unwrap(r)
+    terms = [(b[0] - a[0]) * (b[1] + a[1]) for a, b in zip(u, u[1:])]
+    total, mass = abs(sum(terms)), sum(abs(t) for t in terms)
+    return mass > Fraction(1, 10 ** 250) and total >= 16 * EPS * mass
+
+
+def num_pt(rng, p, num, c=None, d=None):
+    """one position at the numeric scale `num` (`c`: reference grid point, `d`: spacing, for tiny / exp)"""
+    if num == 'grid':
+        return p
+    if num == 'full':
+        return wrap_pt([p[0] + awk(rng) / 32, p[1] + awk(rng) / 32]) + list(p[2:])
+    a, b = round((p[0] - c[0]) * 8), round((p[1] - c[1]) * 8)
+    if num == 'tiny':
+        return wrap_pt([c[0] + 1 / 3 + a * d, c[1] * 0.25 + 0.1 + b * d]) + list(p[2:])
+    return [a * d * 1.0000000000000002, b * d * 0.7000000000000001] + list(p[2:])      # 'exp': next to (0, 0)
+
+
+def num_ring(rng, raw, num):
+    """the ring at the numeric scale `num`: equal lon/lat stay equal (closing vertices), Z is kept"""
+    if num == 'grid':
+        return raw
+    c = raw[0][:2]
+    for attempt in range(6):
+        d = rng.choice(SPACINGS[attempt:] if num == 'tiny' else [1e-5, 1e-6, 1e-7, 2.5e-10])
+        seen, out = {}, []
+        for p in raw:
+            key = (p[0], p[1])
+            if key not in seen:
+                seen[key] = num_pt(rng, p[:2], num, c, d)
+            out.append(seen[key] + list(p[2:]))
+        if len({tuple(v) for v in seen.values()}) == len(seen) and cond_ok(out):
+            return out
+    return raw
+
+
+def num_geom(rng, g, num=None):
+    """re-scale a generated geometry description in place (every ordinate position: outline, holes, box corners,
+    centres and radii of curved shapes, line vertices, points, multi members)"""
+    num = num or g_num(rng)
+    t = g['t']
+    if num == 'grid':
+        return g
+    for h in g.get('holes', []):
+        num_geom(rng, h, num)
+    if t == 'polygon':
+        g['raw'] = num_ring(rng, g['raw'], num)
+    elif t == 'box':
+        if num == 'full':
+            g['nw'], g['se'] = num_pt(rng, g['nw'], 'full'), num_pt(rng, g['se'], 'full')
+        else:
+            d = rng.choice(SPACINGS) if num == 'tiny' else rng.choice([1e-5, 1e-7])
+            base = [g['nw'][0] + 1 / 3, g['nw'][1] * 0.25 + 0.1] if num == 'tiny' else [3 * d, 5 * d * 0.7000000000000001]
+            g['nw'] = wrap_pt(base) + list(g['nw'][2:])
+            g['se'] = wrap_pt([base[0] + 3 * d, base[1] - 2 * d]) + list(g['se'][2:])
+    elif t in ('curved', 'ring'):
+        g['py'][1] = num_pt(rng, g['py'][1], 'full')
+        for i in range(2, len(g['py'])):
+            if g['py'][0] != 'ring' or i < 4:
+                g['py'][i] = g['py'][i] * (1 + awk(rng) / 64)
+    elif t == 'point':
+        g['p'] = num_pt(rng, g['p'], num, g['p'][:2], rng.choice(SPACINGS))
+        if num == 'exp' and rng.random() < 0.5:
+            g['p'] = [rng.choice([5e-324, 1e-320, -2.5e-310]), rng.choice([1e-7, -4.9e-324])] + list(g['p'][2:])
+    elif t in ('line', 'mpoint'):
+        key = 'vs' if t == 'line' else 'ps'
+        c, d = g[key][0][:2], rng.choice(SPACINGS)
+        g[key] = [num_pt(rng, p, num, c, d) for p in g[key]]
+    elif t == 'mline':
+        c, d = g['ls'][0][0][:2], rng.choice(SPACINGS)
+        g['ls'] = [[num_pt(rng, p, num, c, d) for p in ln] for ln in g['ls']]
+    elif t == 'mpoly':
+        for m in g['ps']:
+            num_geom(rng, m, rng.choice([num, 'grid', g_num(rng)]))
+    return g
 
 
 def g_ring(rng, n=None, zmode='none', near=None, spread=40):
@@ -1152,6 +1261,10 @@ def g_polylike(rng, kinds=('polygon', 'box', 'circle', 'ellipse', 'ring', 'wedge
 
 
 def g_geom(rng, kinds=None):
+    return num_geom(rng, g_geom_grid(rng, kinds))
+
+
+def g_geom_grid(rng, kinds=None):
     kind = rng.choice(kinds or ['polygon', 'polygon', 'box', 'circle', 'ellipse', 'ring', 'wedge', 'line', 'point',
                                 'mpoly', 'mline', 'mpoint'])
     zmode = g_zmode(rng)
@@ -1363,7 +1476,27 @@ def j_geometry(rng, kind, wild=False):
             c.append([j_ring(rng, zmode, wild, ctr) for _ in range(rng.choice([1, 1, 2, 3]))])
         if wild and c and rng.random() < 0.05:
             c[0] = []
+    if not wild:
+        c = num_coords(rng, kind, c)
     return {'type': kind, 'coordinates': c}
+
+
+def num_coords(rng, kind, c, num=None):
+    """the coordinates member of a hand-written document at another numeric scale (see num_geom)"""
+    num = num or g_num(rng)
+    if num == 'grid' or not c:
+        return c
+    d = rng.choice(SPACINGS)
+    if kind == 'Point':
+        return num_pt(rng, c, num, c[:2], d)
+    if kind in ('LineString', 'MultiPoint'):
+        return [num_pt(rng, p, num, c[0][:2], d) for p in c]
+    if kind == 'MultiLineString':
+        ref = next((ln[0][:2] for ln in c if ln), None)
+        return [[num_pt(rng, p, num, ref, d) for p in ln] for ln in c]
+    if kind == 'Polygon':
+        return [num_ring(rng, r, num) for r in c]
+    return [[num_ring(rng, r, num) for r in poly] for poly in c]
 
 
 def j_ts(rng, us=None):
@@ -1789,7 +1922,56 @@ def check(run):
             am_small.append(g_dt(rng, fill({'g': {'t': 'curved', 'py': py, 'holes': [{'t': 'curved', 'py': ['circle', ctr, 5000.0]}]}, 'props': {}}, None), 'none'))
         for amin, amax in ((0.0, 360.0), (40.0, 200.0), (250.0, 300.0)):
             am_small.append(g_dt(rng, fill({'g': {'t': 'ring', 'py': ['ring', ctr, 10000.0, 40000.0, amin, amax]}, 'props': {}}, None), 'none'))
-    small = small + am_small
+    # numeric scale, exhaustively: every ordinate position of every kind with full-precision doubles, vertex
+    # spacings of 1e-8 ... 1e-12 degrees (orientation and closure of tiny rings), exponent notation, huge Z
+    num_small = []
+    fx, fy = 100 + 1 / 3, 10.1
+    for d in SPACINGS:
+        sq_t = [[fx, fy], [fx + 3 * d, fy], [fx + 3 * d, fy + 3 * d], [fx, fy + 3 * d]]
+        tri_h = [[fx + d, fy + d], [fx + 2 * d, fy + d], [fx + d, fy + 2 * d]]
+        for rev in (False, True):
+            for closed in (False, True):
+                ring = list(reversed(sq_t)) if rev else list(sq_t)
+                if closed:
+                    ring = ring + [list(ring[0])]
+                for holes in ([], [tri_h], [list(reversed(tri_h))]):
+                    if cond_ok(ring) and all(cond_ok(h) for h in holes):
+                        num_small.append(g_dt(rng, {'g': {'t': 'polygon', 'raw': ring, 'holes': [{'t': 'polygon', 'raw': h} for h in holes]},
+                                                    'props': {'d': d}}, 'none'))
+        num_small.append(g_dt(rng, {'g': {'t': 'box', 'nw': [fx, fy + 2 * d], 'se': [fx + 3 * d, fy]}, 'props': {}}, 'none'))
+        num_small.append(g_dt(rng, {'g': {'t': 'line', 'vs': [[fx, fy], [fx + d, fy + d], [fx + 2 * d, fy]]}, 'props': {}}, 'none'))
+        num_small.append(g_dt(rng, {'g': {'t': 'mpoint', 'ps': [[fx, fy], [fx + d, fy]]}, 'props': {}}, 'none'))
+        num_small.append(g_dt(rng, {'g': {'t': 'mpoly', 'ps': [{'t': 'polygon', 'raw': sq_t, 'holes': [{'t': 'polygon', 'raw': tri_h}]},
+                                                                {'t': 'polygon', 'raw': tri}]}, 'props': {}}, 'none'))
+    full_ring = [[12.345678901234567, 1 / 3], [20 + 0.1 + 0.2, 2 / 3], [17.000000001, 9.87654321987654321], [11.1, 8.000000049999999]]
+    full_hole = [[15 + 1 / 3, 3.000000001], [16.123456789, 3 + 1e-9], [15.5, 4.2345678912345]]
+    for z in [None] + ZS_AWKWARD:
+        zz = [] if z is None else [z]
+        for rev in (False, True):
+            ring = [p + zz for p in (list(reversed(full_ring)) if rev else full_ring)]
+            for holes in ([], [full_hole], [[p + zz for p in reversed(full_hole)]]):
+                num_small.append(g_dt(rng, {'g': {'t': 'polygon', 'raw': ring, 'holes': [{'t': 'polygon', 'raw': h} for h in holes]},
+                                            'props': {}}, 'interval' if rev else 'none'))
+        num_small.append(g_dt(rng, {'g': {'t': 'box', 'nw': [1 / 3, 2 / 3] + zz, 'se': [0.1 + 0.2 + 1, 0.12345678901234567] + zz,
+                                          'holes': [{'t': 'polygon', 'raw': [[0.4, 0.2], [0.5000000001, 0.2], [0.45, 0.3000000004]]}]},
+                                    'props': {}}, 'none'))
+        for pt in ([1 / 3, -2 / 3], [1e-7, -2.5e-10], [5e-324, -4.9e-324], [179.99999999999997, 89.99999999999999],
+                   [-179.99999999999997, -1e-320]):
+            num_small.append(g_dt(rng, {'g': {'t': 'point', 'p': pt + zz}, 'props': {}}, 'none'))
+        num_small.append(g_dt(rng, {'g': {'t': 'line', 'vs': [[1 / 3, 1e-7] + zz, [12.345678901234567, -2.5e-10] + zz, [1e-5, 5e-324] + zz]},
+                                    'props': {}}, 'none'))
+        num_small.append(g_dt(rng, {'g': {'t': 'mline', 'ls': [[[1 / 3, 2 / 3] + zz, [0.1 + 0.2, 1e-9] + zz], [[1e-7, 1e-7], [2e-7, 3e-7] + zz]]},
+                                    'props': {}}, 'none'))
+        num_small.append(g_dt(rng, {'g': {'t': 'mpoint', 'ps': [[1 / 3, 2 / 3] + zz, [1e-7, 12.345678901234567], [0.1 + 0.2, 1e-320] + zz]},
+                                    'props': {}}, 'none'))
+        num_small.append(g_dt(rng, {'g': {'t': 'mpoly', 'ps': [{'t': 'polygon', 'raw': ring, 'holes': [{'t': 'polygon', 'raw': full_hole}]},
+                                                                {'t': 'box', 'nw': [1 / 3, 2 / 3], 'se': [0.1 + 0.2 + 1, 0.12345678901234567] + zz}]},
+                                    'props': {}}, 'none'))
+    for ctr in ([12.345678901234567, 1 / 3], [1e-7, -2.5e-10], [100 + 1 / 3, 45.000000001, 1 / 3]):
+        for py in (['circle', ctr, 1000 / 3], ['circle', ctr, 0.001], ['ellipse', ctr, 1234.5678901234567, 100 / 3, 100 / 7]):
+            num_small.append(g_dt(rng, fill({'g': {'t': 'curved', 'py': py, 'holes': [{'t': 'polygon', 'raw': full_hole}]}, 'props': {}}, None), 'none'))
+        num_small.append(g_dt(rng, fill({'g': {'t': 'ring', 'py': ['ring', ctr, 100 / 3, 1000 / 3, 100 / 7, 200 / 3]}, 'props': {}}, None), 'none'))
+    small = small + am_small + num_small
     lines_export, lines_rfc, lines_rt = [], [], []
     for i, src in enumerate(small):
         a = {'src': src, 'k': None}
@@ -2059,5 +2241,11 @@ def check(run):
             'degrees of a pole); a ring that runs around a pole has no planar winding and is not judged; the bbox member order '
             'of shapes that straddle the antimeridian is C09\'s subject',
             'input forms: dict for every importer, text for parse_geojson (bytes / file objects are not accepted by the code)',
+            'numeric scale: besides the dyadic grid, 45 % of the generated geometries (and hand-written documents) carry '
+            'full-precision doubles, vertex spacings of 1e-8 ... 1e-12 degrees, exponent-notation values or huge / denormal Z, '
+            'in every ordinate position of every kind; exported numbers must be the exact doubles. A ring is only generated '
+            'at such a scale if its orientation is decided far above rounding noise (|sum| >= 16 * 2^-52 * sum |terms| of the '
+            'library\'s orientation sum, no underflow): below that bound the verdict of ANY float evaluation is a coin toss '
+            'and the exact-rational model cannot be compared with it',
         ],
         checker_cmd='cd lean && lake build GeoVerif.Props.C14 && lake env lean .lake/audit/C14.lean  (#print axioms)')
